@@ -11,6 +11,8 @@
 #include <gatery/pch.h>
 #include "simhelp.h"
 #include "common.h"
+#include <gatery/hlim/coreNodes/Node_Register.h>
+#include <gatery/hlim/supportNodes/Node_MemPort.h>
 #include <iostream>
 #include <fstream>
 #include <memory>
@@ -34,13 +36,16 @@ struct Expr {
 };
 enum StmtK { ST_DECL, ST_DEFAULT, ST_ASSIGN, ST_IF, ST_ELSE, ST_ELSEIF, ST_ELSEIF2,
              // width-less, policy-carrying variables (own index space): UInt x = lit / SInt x{lit}; UInt x = zext(e) / oext(e); UInt x = y; x = lit; x = y; Bit t = (x op y)
-             ST_ILIT, ST_IEXT, ST_ICOPY, ST_IASSIGN, ST_IVAR, ST_CMP };
+             ST_ILIT, ST_IEXT, ST_ICOPY, ST_IASSIGN, ST_IVAR, ST_CMP,
+             // enable scope ENIF (c) { body }; clocked statements whose (write) enable is observed: auto t = reg(e);  Memory<UInt> mem(2^aw, w_b); mem[addr] = d;
+             ST_ENIF, ST_REG, ST_MEMW };
 struct Stmt {
 	StmtK k = ST_DECL; Ty ty; std::string bits; int x = 0; std::vector<Sel> path; Expr e; std::vector<Stmt> body;
 	char ikind = 'u';      // 'u' UInt literal (policy zero), 's' SInt literal (policy sign), 'z' zext(e) (zero), 'o' oext(e) (one)
 	long long lit = 0; int y = 0; int op = 0;
+	Expr e2;               // ST_MEMW: data (e = address)
 };
-struct Program { std::vector<Ty> ins; std::vector<Stmt> stmts; bool aliasPattern = false; bool intPattern = false; };
+struct Program { std::vector<Ty> ins; std::vector<Stmt> stmts; bool aliasPattern = false; bool intPattern = false; bool enPattern = false; };
 
 static void printPath(std::ostream &o, const std::vector<Sel> &p) {
 	o << p.size();
@@ -76,6 +81,9 @@ static void printStmts(std::ostream &o, const std::vector<Stmt> &ss) {
 			case ST_IASSIGN: o << "IA " << s.x << ' ' << s.lit << '\n'; break;
 			case ST_IVAR: o << "IV " << s.x << ' ' << s.y << '\n'; break;
 			case ST_CMP: o << "CM " << opNames[s.op] << ' ' << s.x << ' ' << s.y << '\n'; break;
+			case ST_ENIF: o << "EN "; printExpr(o, s.e); o << '\n'; printStmts(o, s.body); o << "}\n"; break;
+			case ST_REG: o << "RG "; printExpr(o, s.e); o << '\n'; break;
+			case ST_MEMW: o << "MW "; printExpr(o, s.e); o << ' '; printExpr(o, s.e2); o << '\n'; break;
 		}
 	}
 }
@@ -120,6 +128,9 @@ static std::vector<Stmt> parseStmts(std::istream &in) {
 		else if (h == "EL") { s.k = ST_ELSE; s.body = parseStmts(in); }
 		else if (h == "EI") { s.k = ST_ELSEIF; s.e = parseExpr(tk); s.body = parseStmts(in); }
 		else if (h == "E2") { s.k = ST_ELSEIF2; s.e = parseExpr(tk); s.body = parseStmts(in); }
+		else if (h == "EN") { s.k = ST_ENIF; s.e = parseExpr(tk); s.body = parseStmts(in); }
+		else if (h == "RG") { s.k = ST_REG; s.e = parseExpr(tk); }
+		else if (h == "MW") { s.k = ST_MEMW; s.e = parseExpr(tk); s.e2 = parseExpr(tk); }
 		else if (h == "IL") { s.k = ST_ILIT; s.ikind = tk.next()[0]; s.lit = atoll(tk.next().c_str()); }
 		else if (h == "IX") { s.k = ST_IEXT; s.ikind = tk.next()[0]; s.e = parseExpr(tk); }
 		else if (h == "IC") { s.k = ST_ICOPY; s.y = atoi(tk.next().c_str()); }
@@ -138,6 +149,9 @@ struct Gen {
 	Rng &rng; int maxDepth; int budget; bool malformed = false; bool didMalform = false;
 	struct IVarInfo { char kind; int width; };   // static width as the frontend tracks it (m_width grows with every wider value, taken or not)
 	std::vector<IVarInfo> ivars;
+	char levelKind[64] = {0};    // per nesting level: 'c' conditional scope (IF / ELSE…), 'e' enable scope (ENIF: does not make assignments conditional)
+	bool condBetween(int from, int to) { for (int l = from + 1; l <= to && l < 64; l++) if (levelKind[l] == 'c') return true; return false; }
+	bool enPending = false, enProgram = false;   // pattern seed: nests of ENIF / IF scopes (depth 1..4, any order) around reg() and memory writes
 	bool intPending = false;     // pattern seed still to be emitted: variables initialised from integer literals / ext(), re-assigned wider / narrower / equal literals
 	bool aliasPending = false;   // pattern seed still to be emitted: dynamic selections on one vector that share index variable / width / option count
 	std::vector<VarInfo> vars;
@@ -237,6 +251,39 @@ struct Gen {
 	}
 	Ty genTy() { if (rng.chance(2, 5)) return Ty{}; static const std::vector<int> ws = {1, 2, 3, 4, 4, 5, 6, 8}; return Ty{false, rng.pick(ws)}; }
 
+
+	// ---- pattern seed: enable scopes ----------------------------------------------------------------------------------------------
+	// reg() and mem[a] = d take EnableScope::get()->getFullEnableCondition() as (write) enable; every ENIF and every conditional scope
+	// pushes one EnableScope whose accumulated condition is `own ∧ parent's accumulated`. The pattern nests 1..4 scopes, ENIF and IF
+	// (sometimes with an ELSE) in any order, with clocked statements at the innermost and at intermediate levels; the observed effect
+	// is the node driving the register's ENABLE / the write port's wrEnable input.
+	Stmt genClocked() {
+		Stmt s;
+		if (rng.chance(3, 5)) { s.k = ST_REG; s.e = genExpr(genTy(), 1); }
+		else { s.k = ST_MEMW; s.e = genExpr(Ty{false, (int)rng.range(1, 3)}, 1); s.e2 = genExpr(Ty{false, (int)rng.range(1, 4)}, 1); }
+		budget--;
+		return s;
+	}
+	void genEnNest(std::vector<Stmt> &out, int levels) {
+		if (levels == 0) { out.push_back(genClocked()); if (rng.chance(1, 3)) out.push_back(genClocked()); return; }
+		Stmt s; s.k = rng.chance(11, 20) ? ST_ENIF : ST_IF; s.e = genCond(nullptr);
+		depth++; if (depth < 64) levelKind[depth] = s.k == ST_IF ? 'c' : 'e';
+		size_t nvars = vars.size(), nivars = ivars.size();
+		if (rng.chance(1, 4)) s.body.push_back(genClocked());
+		if (rng.chance(1, 4) && budget > 0) genBlock(s.body, 1);         // ordinary statements in between (assignments are not gated by ENIF)
+		genEnNest(s.body, levels - 1);
+		if (rng.chance(1, 5)) s.body.push_back(genClocked());
+		vars.resize(nvars); ivars.resize(nivars);
+		depth--;
+		bool wasIf = s.k == ST_IF;
+		out.push_back(s); budget--;
+		if (wasIf && rng.chance(1, 3)) { Stmt e; e.k = ST_ELSE; depth++; if (depth < 64) levelKind[depth] = 'c'; e.body.push_back(genClocked()); if (rng.chance(1, 3)) genEnNest(e.body, std::max(0, levels - 2)); depth--; out.push_back(e); budget--; }
+	}
+	void genEnPattern(std::vector<Stmt> &out) {
+		enPending = false;
+		int n = (int)rng.range(1, 2);
+		for (int i = 0; i < n; i++) genEnNest(out, (int)rng.range(1, 4));
+	}
 
 	// ---- pattern seed: width-less variables (integer literals, zext/oext) and the conditional width-increment path -----------------
 	// `UInt x = 5; IF (c) x = 200;` : BaseBitVector::assign grows x and, inside a scope, pads the OLD value to the new width with x's
@@ -389,6 +436,11 @@ struct Gen {
 		while (n > 0 && budget > 0) {
 			if (aliasPending && rng.chance(1, 4)) { genAliasPattern(out); n--; continue; }
 			if (intPending && rng.chance(1, 4)) { genIntPattern(out); n--; continue; }
+			if (enPending && rng.chance(1, 4)) { genEnPattern(out); n--; continue; }
+			if (enProgram && rng.chance(1, 25)) { out.push_back(genClocked()); n--; continue; }
+			if (enProgram && depth < maxDepth && rng.chance(1, 20)) {   // an enable scope around ordinary statements
+				Stmt s; s.k = ST_ENIF; s.e = genCond(nullptr); depth++; if (depth < 64) levelKind[depth] = 'e'; genBlock(s.body, (int)rng.range(1, 3)); depth--; out.push_back(s); budget--; n--; continue;
+			}
 			unsigned k = (unsigned)rng.below(100);
 			budget--; n--;
 			if (k < 12) {
@@ -406,7 +458,7 @@ struct Gen {
 				s.x = c[rng.below(c.size())];
 				const VarInfo &v = vars[s.x];
 				Ty tt = v.ty;
-				bool needPath = v.dflt && v.depth == depth;     // a whole unconditional assignment would make the Node_Default non-loopy
+				bool needPath = v.dflt && !condBetween(v.depth, depth);     // a whole unconditional assignment would make the Node_Default non-loopy
 				if (!v.ty.isBit && v.ty.w >= 1 && (needPath || rng.chance(1, 2))) genPath(v.ty.w, s.path, tt, 2, true);
 				if (needPath && s.path.empty()) { // Bit default at its own level: skip the assignment, declare something instead
 					Stmt d; d.k = ST_DECL; d.ty = genTy(); d.e = genExpr(d.ty, 2); out.push_back(d); vars.push_back({d.ty, false, depth, false}); continue;
@@ -427,7 +479,7 @@ struct Gen {
 				// IF chain
 				Stmt s; s.k = ST_IF; s.e = genCond(nullptr);
 				Expr first = s.e;
-				auto body = [&](Stmt &st) { depth++; genBlock(st.body, (int)rng.range(1, 3)); depth--; };
+				auto body = [&](Stmt &st) { depth++; if (depth < 64) levelKind[depth] = 'c'; genBlock(st.body, (int)rng.range(1, 3)); depth--; };
 				body(s); out.push_back(s);
 				if (rng.chance(3, 5)) {
 					int arms = (int)rng.below(3);
@@ -444,6 +496,7 @@ struct Gen {
 		// not placed so far: append at top level, while the top level variables are still known (vars is truncated below)
 		if (depth == 0 && aliasPending) genAliasPattern(out);
 		if (depth == 0 && intPending) genIntPattern(out);
+		if (depth == 0 && enPending) genEnPattern(out);
 		{ // static widths survive the block (m_width of an outer variable grown inside stays grown); only the block's own variables go
 			ivars.resize(nivars); }
 		vars.resize(nvars);
@@ -464,6 +517,7 @@ static Program genProgram(Rng &rng, int maxStmts, int maxDepth, bool malformed) 
 	}
 	p.aliasPattern = g.aliasPending = rng.chance(1, 4);
 	p.intPattern = g.intPending = rng.chance(1, 4);
+	p.enPattern = g.enPending = g.enProgram = rng.chance(1, 4);
 	g.genBlock(p.stmts, 1000);
 	return p;
 }
@@ -476,6 +530,8 @@ struct IValue { std::unique_ptr<UInt> u; std::unique_ptr<SInt> s; };
 struct Exec {
 	std::vector<Value> vars;     // live frontend objects, declaration order
 	std::vector<IValue> ivars;   // width-less, policy-carrying vectors (own index space)
+	std::vector<Bit> obs;        // per reg / memory write statement: the signal driving the ENABLE / wrEnable input ('1' if unconnected)
+	void observe(hlim::NodePort p) { if (p.node) obs.emplace_back(SignalReadPort(p)); else obs.emplace_back('1'); }
 	IValue &ivar(int i) { if (i < 0 || i >= (int)ivars.size()) throw std::runtime_error("unknown integer variable"); return ivars[i]; }
 
 	const UInt &idxVar(int i) { if (i < 0 || i >= (int)vars.size() || !vars[i].u) throw std::runtime_error("bad index variable"); return *vars[i].u; }
@@ -655,6 +711,27 @@ struct Exec {
 					vars.push_back(std::move(v));
 					break;
 				}
+				case ST_ENIF:
+					// ENIF(x) -> if (gtry::EnableScope ___enableScope{x}) {} else body
+					ENIF (evalB(s.e)) block(s.body);
+					break;
+				case ST_REG: {
+					hlim::BaseNode *n = nullptr;
+					if (exprIsBit(s.e)) { Bit t = reg(evalB(s.e)); n = t.readPort().node; } else { UInt t = reg(evalU(s.e)); n = t.readPort().node; }
+					auto *r = dynamic_cast<hlim::Node_Register *>(n);
+					if (!r) throw std::runtime_error("reg() did not return a register output");
+					observe(r->getDriver(hlim::Node_Register::ENABLE));
+					break;
+				}
+				case ST_MEMW: {
+					if (exprIsBit(s.e) || exprIsBit(s.e2)) throw std::runtime_error("type");
+					UInt addr = evalU(s.e); UInt data = evalU(s.e2);
+					if (addr.size() < 1 || addr.size() > 4) throw std::runtime_error("address width");
+					Memory<UInt> mem(1ull << addr.size(), data.width());
+					auto *wp = mem[addr].write(data);
+					observe(wp->getDriver((size_t)hlim::Node_MemPort::Inputs::wrEnable));
+					break;
+				}
 				case ST_IF:
 					// IF(x)  ->  if (gtry::ConditionalScope ___condScope{x}) body
 					if (gtry::ConditionalScope ___condScope{evalB(s.e)}) block(s.body);
@@ -677,15 +754,18 @@ struct Exec {
 	}
 };
 
+static bool hasClocked(const std::vector<Stmt> &ss) { for (auto &s : ss) if (s.k == ST_REG || s.k == ST_MEMW || hasClocked(s.body)) return true; return false; }
 static bool hasDefault(const std::vector<Stmt> &ss) { for (auto &s : ss) if (s.k == ST_DEFAULT || hasDefault(s.body)) return true; return false; }
 
 static void runCase(std::ostream &o, const std::string &id, const Program &p, Rng &vrng, int exhBits, int nRandom) {
-	o << "case " << id << (p.aliasPattern ? " alias" : "") << (p.intPattern ? " intlit" : "") << "\n";
+	o << "case " << id << (p.aliasPattern ? " alias" : "") << (p.intPattern ? " intlit" : "") << (p.enPattern ? " enable" : "") << "\n";
 	o << "ins"; for (auto &t : p.ins) o << ' ' << tyStr(t); o << '\n';
 	printStmts(o, p.stmts);
 	o << "endprog\n";
 	try {
 		DesignScope design;
+		std::optional<Clock> clk; std::optional<ClockScope> clkScope;      // reg() and memory ports need a clock
+		if (hasClocked(p.stmts)) { clk.emplace(ClockConfig{ .absoluteFrequency = 1'000'000 }); clkScope.emplace(*clk); }
 		Exec ex;
 		std::vector<hlim::Node_Pin *> inPins;
 		for (size_t i = 0; i < p.ins.size(); i++) {
@@ -713,6 +793,8 @@ static void runCase(std::ostream &o, const std::string &id, const Program &p, Rn
 			if (ex.ivars[i].u) outPinsI.push_back(pinOut(*ex.ivars[i].u).setName("iout" + std::to_string(i)).node());
 			else outPinsI.push_back(pinOut(*ex.ivars[i].s).setName("iout" + std::to_string(i)).node());
 		}
+		std::vector<hlim::Node_Pin *> outPinsO;   // (write) enables of the clocked statements
+		for (size_t i = 0; i < ex.obs.size(); i++) outPinsO.push_back(pinOut(ex.obs[i]).setName("en" + std::to_string(i)).node());
 		int totalBits = 0; for (auto &t : p.ins) totalBits += t.w;
 		std::vector<std::vector<std::string>> vals;
 		auto mk = [&](uint64_t bits) {
@@ -724,7 +806,7 @@ static void runCase(std::ostream &o, const std::string &id, const Program &p, Rn
 		else { vals.push_back(mk(0)); vals.push_back(mk(~0ull)); for (int i = 0; i < nRandom; i++) vals.push_back(mk(vrng.next())); }
 
 		bool dflt = hasDefault(p.stmts);   // Node_Default cannot be simulated before DefaultValueResolution (postprocess)
-		std::vector<std::vector<std::string>> pre(vals.size()), post(vals.size()), preI(vals.size()), postI(vals.size());
+		std::vector<std::vector<std::string>> pre(vals.size()), post(vals.size()), preI(vals.size()), postI(vals.size()), preO(vals.size()), postO(vals.size());
 		bool postFailed = false;
 		for (int pass = 0; pass < 2; pass++) {
 			if (pass == 1) {
@@ -742,6 +824,8 @@ static void runCase(std::ostream &o, const std::string &id, const Program &p, Rn
 				for (auto *op : outPins) dst.push_back(sim.getPin(op));
 				auto &dstI = pass ? postI[k] : preI[k];
 				for (auto *op : outPinsI) dstI.push_back(sim.getPin(op));
+				auto &dstO = pass ? postO[k] : preO[k];
+				for (auto *op : outPinsO) dstO.push_back(sim.getPin(op));
 			}
 		}
 		o << "nout " << outPins.size() << "\n";
@@ -749,9 +833,9 @@ static void runCase(std::ostream &o, const std::string &id, const Program &p, Rn
 			o << "v";
 			for (auto &s : vals[k]) o << ' ' << s;
 			o << " |";
-			if (dflt) o << " -"; else { for (auto &s : pre[k]) o << ' ' << s; if (!outPinsI.empty()) { o << " ;"; for (auto &s : preI[k]) o << ' ' << s; } }
+			if (dflt) o << " -"; else { for (auto &s : pre[k]) o << ' ' << s; if (!outPinsI.empty() || !outPinsO.empty()) { o << " ;"; for (auto &s : preI[k]) o << ' ' << s; } if (!outPinsO.empty()) { o << " ;"; for (auto &s : preO[k]) o << ' ' << s; } }
 			o << " |";
-			if (postFailed) o << " -"; else { for (auto &s : post[k]) o << ' ' << s; if (!outPinsI.empty()) { o << " ;"; for (auto &s : postI[k]) o << ' ' << s; } }
+			if (postFailed) o << " -"; else { for (auto &s : post[k]) o << ' ' << s; if (!outPinsI.empty() || !outPinsO.empty()) { o << " ;"; for (auto &s : postI[k]) o << ' ' << s; } if (!outPinsO.empty()) { o << " ;"; for (auto &s : postO[k]) o << ' ' << s; } }
 			o << '\n';
 		}
 	} catch (const std::exception &e) {
